@@ -111,7 +111,8 @@ theorem movepre_preserves_source (basis : Array W) (ops : List Op) (src : Nat) (
       (HState.run basis ops).heap.observe src :=
   op_preserves basis ops _ src hl hne
 
-/-- **A successful move yields exactly `Pos.apply`** of the source's value, in fresh storage or in the buffer -/
+/-- whatever handle an op returns is live and observes its pure value (see `move_yields_apply`,
+`movepre_yields_apply`, `clone_observationally_identical` for what that value is) -/
 theorem move_result (basis : Array W) (ops : List Op) (op : Op) (i : Nat)
     (hr : ((HState.run basis ops).step basis op).2 = .ok i) :
     i ∈ ((HState.run basis ops).step basis op).1.live ∧
@@ -151,6 +152,65 @@ theorem move_result (basis : Array W) (ops : List Op) (op : Op) (i : Nat)
         · cases hr
       · cases hr
   exact ⟨hi, h.2.2 i hi⟩
+
+/-- **Move = `Pos.apply`, in fresh storage**: if the rules accept `m` on the value the source observes, `Move`
+returns a new live handle observing exactly `Pos.apply` of that value; if they refuse, it reports failure -/
+theorem move_yields_apply (basis : Array W) (ops : List Op) (src : Nat) (m : Move) (pv : Pos)
+    (hl : src ∈ (HState.run basis ops).live) (hsrc : (HState.run basis ops).heap.observe src = some pv) :
+    (∀ q, pv.apply basis m = .ok q →
+      ∃ i, ((HState.run basis ops).step basis (.move src m)).2 = .ok i ∧ i ∉ (HState.run basis ops).live ∧
+        ((HState.run basis ops).step basis (.move src m)).1.heap.observe i = some q) ∧
+    (∀ e, pv.apply basis m = .error e → ((HState.run basis ops).step basis (.move src m)).2 = .failed) := by
+  obtain ⟨_, R⟩ := run_inv basis ops
+  obtain ⟨pv', hpv⟩ := (R.live src).mp hl
+  have : pv' = pv := Option.some.inj ((R.obs src pv' hpv).symm.trans hsrc)
+  subst this
+  have hagree := interpreters_agree basis ops (.move src m)
+  constructor
+  · intro q hq
+    have hstep : (PState.run basis ops).step basis (.move src m) =
+        (Array.push (PState.run basis ops) (some q), .ok (PState.run basis ops).size) := by
+      simp only [PState.step, hpv, hq]
+    rw [hstep] at hagree
+    refine ⟨_, hagree, ?_, ?_⟩
+    · rw [R.size]; exact Refines.not_live_size (h := (HState.run basis ops).heap) R
+    · rw [(move_result basis ops _ _ hagree).2]
+      show (PState.run basis (ops ++ [Op.move src m])).get _ = some q
+      rw [PState.run_append]
+      simp only [List.foldl_cons, List.foldl_nil, hstep, PState.get_push, if_true]
+  · intro e he
+    rw [hagree]
+    simp only [PState.step, hpv, he]
+
+/-- **MovePreallocated = `Pos.apply`, in the caller's buffer** (any existing object other than the source, live or
+dead): on success the buffer's handle is live and observes exactly `Pos.apply` of the source's value -/
+theorem movepre_yields_apply (basis : Array W) (ops : List Op) (src : Nat) (m : Move) (buf : Nat) (pv : Pos)
+    (hl : src ∈ (HState.run basis ops).live) (hsrc : (HState.run basis ops).heap.observe src = some pv)
+    (hne : buf ≠ src) (hb : buf < (HState.run basis ops).heap.objs.size) :
+    (∀ q, pv.apply basis m = .ok q →
+      ((HState.run basis ops).step basis (.movepre src m buf)).2 = .ok buf ∧
+        ((HState.run basis ops).step basis (.movepre src m buf)).1.heap.observe buf = some q) ∧
+    (∀ e, pv.apply basis m = .error e → ((HState.run basis ops).step basis (.movepre src m buf)).2 = .failed) := by
+  obtain ⟨_, R⟩ := run_inv basis ops
+  obtain ⟨pv', hpv⟩ := (R.live src).mp hl
+  have : pv' = pv := Option.some.inj ((R.obs src pv' hpv).symm.trans hsrc)
+  subst this
+  have hagree := interpreters_agree basis ops (.movepre src m buf)
+  have hb' : buf < (PState.run basis ops).size := by rw [R.size]; exact hb
+  constructor
+  · intro q hq
+    have hstep : (PState.run basis ops).step basis (.movepre src m buf) =
+        (Array.setIfInBounds (PState.run basis ops) buf (some q), .ok buf) := by
+      simp only [PState.step, hpv, hq, hne, hb', ne_eq, not_false_eq_true, and_self, if_true]
+    rw [hstep] at hagree
+    refine ⟨hagree, ?_⟩
+    rw [(move_result basis ops _ _ hagree).2]
+    show (PState.run basis (ops ++ [Op.movepre src m buf])).get _ = some q
+    rw [PState.run_append]
+    simp only [List.foldl_cons, List.foldl_nil, hstep, PState.get_set, hb', and_self, if_true]
+  · intro e he
+    rw [hagree]
+    simp only [PState.step, hpv, he, hne, hb', ne_eq, not_false_eq_true, and_self, if_true]
 
 /-- **Failed moves change nothing**: every live handle other than the buffer handed in keeps its value, and
 no new position appears -/
